@@ -203,6 +203,48 @@ func applyOp(t *ctree.Tree, o SOp, handle *ctree.Leaf, park func()) Res {
 			panic(err)
 		}
 		return Res{Kind: "qerr"}
+	case "walk", "walksorted", "walkerr", "walksortederr":
+		// Walk / WalkSorted with a visitor that parks at every call and, for the
+		// *err kinds, returns an error at its (V+1)-th call
+		fails := o.K == "walkerr" || o.K == "walksortederr"
+		n := int64(0)
+		var seen []LeafObs
+		errStop := fmt.Errorf("visitor says stop")
+		vf := func(path []string, _ *ctree.Leaf, val interface{}) error {
+			x, ok := val.(int64)
+			if !ok {
+				panic(fmt.Sprintf("visited a non-value %T", val))
+			}
+			seen = append(seen, LeafObs{P: cpPath(path), V: x})
+			if park != nil {
+				park()
+			}
+			n++
+			if fails && n == o.V+1 {
+				return errStop
+			}
+			return nil
+		}
+		var err error
+		if o.K == "walk" || o.K == "walkerr" {
+			err = t.Walk(vf)
+		} else {
+			err = t.WalkSorted(vf)
+		}
+		if err == nil {
+			return Res{Kind: "leaves", Leaves: seen}
+		}
+		if err != errStop {
+			panic(err)
+		}
+		return Res{Kind: "qerr"}
+	case "delcond":
+		ps := t.DeleteConditional(o.P, func(interface{}) bool { return true })
+		out := make([][]string, len(ps))
+		for i, p := range ps {
+			out[i] = cpPath(p)
+		}
+		return Res{Kind: "paths", Paths: out}
 	case "delete":
 		ps := t.Delete(o.P)
 		out := make([][]string, len(ps))
